@@ -19,7 +19,7 @@
    the total -- three invariants proved preserved by EVERY operation (step_live), so no BeginBlock of any run halts the
    chain (run_begin_block_never_halts). A block reward above half the total is finding D19 (begin_block_mint_refuted).
    Panic-freedom of EndBlock is not proved; it is tested (halt detection on every generated history). *)
-From SaoVerif Require Import Base.Prelude Base.Ints Base.Dec Model.Did Model.Types Model.Monad Model.Bank Model.Select Model.Node Model.Storage Model.Sao Model.Hooks Model.App Model.Spec Proofs.SelectFacts Proofs.Frame Proofs.Accumulator Proofs.BeginLive.
+From SaoVerif Require Import Base.Prelude Base.Ints Base.Dec Model.Did Model.Types Model.Monad Model.Bank Model.Select Model.Node Model.Storage Model.Sao Model.Hooks Model.App Model.Spec Proofs.SelectFacts Proofs.Frame Proofs.Accumulator Proofs.BeginLive Proofs.MetaSched Proofs.DataSched.
 From RecordUpdate Require Import RecordUpdate.
 Import RecordSetNotations.
 
@@ -68,6 +68,12 @@ Theorem C02_live_nonvacuous :
   forall e, begin_block (ex_cx 5) (run ex_trace ex_genesis) <> Panic e.
 Proof. first [exact live_nonvacuous | apply live_nonvacuous]. Qed.
 Print Assumptions C02_live_nonvacuous.
+
+(* the re-slicing loop of removeDataExpireBlock (it runs out of bounds on a duplicate) never panics in a reachable state *)
+Theorem C02_remove_data_expire_never_panics : forall tr s data h e,
+  Forall (fun co : Ctx * Op => height_ok co.1) tr -> Inv_ds s -> remove_data_expire data h (run tr s) <> Panic e.
+Proof. first [exact remove_data_expire_never_panics | apply remove_data_expire_never_panics]. Qed.
+Print Assumptions C02_remove_data_expire_never_panics.
 
 Theorem C02_begin_block_mint_refuted : exists cx s s' d,
   step cx s OBeginBlock = (s', OutBlock BOk d) /\
